@@ -858,6 +858,7 @@ func runParent(c *Check, tier string, root uint64) int {
 	var fresh []vrec
 	knownHits := map[string]int{}
 	knownWhat := map[string]*KnownFinding{}
+	knownNotReached := map[string]bool{}
 	stats := map[string]int64{}
 	hashes := map[uint64]bool{}
 	nontrivial := 0
@@ -936,7 +937,14 @@ func runParent(c *Check, tier string, root uint64) int {
 			knownHits[k.Property+"|"+k.Sig]++
 			knownWhat[k.Property+"|"+k.Sig] = k
 		} else {
-			fmt.Printf("NOTE: the committed example of the open finding %q (%s) no longer fails\n", k.Sig, k.Replay)
+			// A listed finding is reported on every run. Its committed example is a function of
+			// the harness version as well (every yield point is part of the schedule): when the
+			// example does not fail and no run of this batch reached the finding either, the
+			// line says so instead of claiming a reproduction.
+			if _, seen := knownWhat[k.Property+"|"+k.Sig]; !seen {
+				knownWhat[k.Property+"|"+k.Sig] = k
+				knownNotReached[k.Property+"|"+k.Sig] = true
+			}
 		}
 	}
 	// worker deaths: re-run the seed alone in a fresh process to classify
@@ -1023,6 +1031,11 @@ func runParent(c *Check, tier string, root uint64) int {
 		fmt.Printf("  signature: %s\n  seed: %d replay-confirmed-in-fresh-process: %v\n  %s\n", f.v.Sig, f.seed, ok, f.v.Msg)
 	}
 	var khKeys []string
+	for k := range knownNotReached {
+		if _, hit := knownHits[k]; !hit {
+			khKeys = append(khKeys, k)
+		}
+	}
 	for k := range knownHits {
 		khKeys = append(khKeys, k)
 	}
@@ -1030,6 +1043,10 @@ func runParent(c *Check, tier string, root uint64) int {
 	knownOut := map[string]int{}
 	for _, k := range khKeys {
 		kf := knownWhat[k]
+		if knownNotReached[k] && knownHits[k] == 0 {
+			fmt.Printf("KNOWN-FINDING: property=%s %s [sig %s, not reached by this batch; the committed example %s does not fail under this version of the harness]\n", kf.Property, kf.What, kf.Sig, kf.Replay)
+			continue
+		}
 		fmt.Printf("KNOWN-FINDING: property=%s %s [sig %s, %d runs]\n", kf.Property, kf.What, kf.Sig, knownHits[k])
 		knownOut[kf.Sig] = knownHits[k]
 	}
